@@ -3,7 +3,7 @@
    the request parser and the engine are parameters of every theorem below (universally quantified). *)
 From Coq Require Import ZArith List Bool String.
 From PK Require Import Base.Bytes Base.Prim Session.Framing Session.FramingProofs Session.Encode Session.EncodeProofs
-                       Session.Session Session.SessionProofs Session.Toy.
+                       Session.Session Session.SessionProofs Session.Connection Session.ConnectionProofs Session.Toy.
 Import ListNotations.
 Open Scope Z_scope.
 
@@ -48,8 +48,9 @@ Section AnyParserAnyEngine.
   Notation handle := (handle request parse rq_version estate engine).
   Notation serve := (serve request parse rq_version estate engine).
 
-  (* 2. Exactly one step per frame, and (given a clock and version numbers that fit their TTLV fields) every step is
-        one `sendall`: nothing but the end of the stream leaves the loop.  [loop_total] *)
+  (* 2. Exactly one step per frame, and (given a clock and version numbers that fit their TTLV fields, and engine
+        error messages that are encodable text) every step is one `sendall`: nothing but the end of the stream
+        leaves the loop.  [loop_total] *)
   Theorem one_response_per_frame : forall g fs st,
     length (fst (serve g fs st)) = length fs.
   Proof. exact (serve_length request parse rq_version estate engine). Qed.
@@ -57,9 +58,10 @@ Section AnyParserAnyEngine.
   Theorem loop_total :
     (forall rq, ver_ok (rq_version rq)) ->
     (forall rq id st enc max ver st', engine rq id st = (EResp enc max ver, st') -> ver_ok ver) ->
+    (forall rq id st reason msg st', engine rq id st = (EKmipErr reason msg, st') -> text_ok msg = true) ->
     forall g fs st, clock_ok (now g) -> Forall (fun s => exists b, out s = Sent b) (fst (serve g fs st)).
   Proof.
-    intros H1 H2 g fs st Hc. exact (serve_all_sent request parse rq_version estate engine H1 H2 g fs Hc st).
+    intros H1 H2 H3 g fs st Hc. exact (serve_all_sent request parse rq_version estate engine H1 H2 H3 g fs Hc st).
   Qed.
 
   (* 3. A request that cannot be decoded is never executed: the engine state is untouched, the engine is not
@@ -96,6 +98,24 @@ Section AnyParserAnyEngine.
     intros. erewrite too_large_replaced_lemma by eassumption. destruct max; reflexivity.
   Qed.
 End AnyParserAnyEngine.
+
+(* 5b. The whole observable behaviour of a connection (every answer, every engine call, the final store) depends
+       on the byte stream only, not on how the transport chunked it; and there is one answer per frame of the stream. *)
+Theorem connection_chunk_independent :
+  forall (request : Type) (parse : bytes -> option request) (rq_version : request -> Z * Z) (estate : Type)
+         (engine : request -> identity -> estate -> eresult * estate) g cs1 cs2 st,
+  concat cs1 = concat cs2 -> Forall nonempty cs1 -> Forall nonempty cs2 ->
+  connection request parse rq_version estate engine g cs1 st = connection request parse rq_version estate engine g cs2 st
+  /\ length (fst (connection request parse rq_version estate engine g cs1 st)) = length (frames_stream (concat cs1)).
+Proof.
+  intros. split; [apply connection_chunk_independent_lemma; assumption | apply connection_answers_per_frame; assumption].
+Qed.
+Print Assumptions connection_chunk_independent.
+Example connection_chunk_independent_ex :
+  connection toy_request toy_parse (fun r => r) nat toy_engine toy_cfg [[66;0;120;1;0;0;0;0;1;2;3;4;0;0;0;1;9]] 0%nat
+  = connection toy_request toy_parse (fun r => r) nat toy_engine toy_cfg [[66;0];[120;1;0;0;0;0;1];[2;3;4;0;0;0;1];[9]] 0%nat
+  /\ length (fst (connection toy_request toy_parse (fun r => r) nat toy_engine toy_cfg [[66;0];[120;1;0;0;0;0;1];[2;3;4;0;0;0;1];[9]] 0%nat)) = 2%nat.
+Proof. vm_compute. split; reflexivity. Qed.
 Print Assumptions one_response_per_frame.
 Print Assumptions loop_total.
 Print Assumptions undecodable_not_executed.
